@@ -42,6 +42,10 @@ static inline int itype_index(const char* tok) { for (int i = 0; i < NITYPES; ++
 // library constants used to plant boundary values (read from the first loaded CUT)
 struct DecConsts { int64_t phi = 205887, pidiv2 = 102944, pidiv4 = 51472; };
 extern DecConsts g_dc;
+// set by the libFuzzer target: half of the fixed_t operands are then taken verbatim from the input
+// words, so that libFuzzer's compare tracing (constants seen in comparisons are written into the
+// input) reaches operand values no class plants. rapidcheck runs are unaffected.
+extern bool g_fuzz_mode;
 
 static inline int64_t clamp_mag(i128 v, int maxbits)
 {
@@ -55,9 +59,10 @@ static inline int64_t clamp_mag(i128 v, int maxbits)
 // Consumes exactly 5 words.
 static inline int64_t dec_raw(Dec& d, int maxbits = 63)
 {
-  int kind = (int)d.range(0, 19); uint64_t u = d.u64(); int k = (int)d.range(0, 62); int dl = (int)d.range(0, 6); bool neg = d.flag();
+  uint64_t kw = d.u64(); int kind = (int)(kw % 20); uint64_t u = d.u64(); int k = (int)d.range(0, 62); int dl = (int)d.range(0, 6); bool neg = d.flag();
   static const int64_t delta[7] = { 0, 1, -1, 2, -2, 3, -3 };
   i128 v = 0;
+  if (g_fuzz_mode && (kw >> 63)) { i128 w = (i128)(int64_t)u; if (maxbits < 63) { i128 lim = ((i128)1 << maxbits) - 1; if (w > lim || w < -lim) w %= (lim + 1); } return clamp_mag(w, maxbits); }
   if (kind <= 3) { uint64_t z = u % 140001; v = (z & 1) ? -(i128)((z + 1) / 2) : (i128)(z / 2); if (neg) v = -v; return clamp_mag(v, maxbits); }
   else if (kind <= 9) { int len = 1 + k % maxbits; uint64_t m = len >= 64 ? ~0ull : (((uint64_t)1 << len) - 1); v = (i128)((u & m) | ((uint64_t)1 << (len - 1))); }
   else if (kind <= 12) { int kk = k % (maxbits >= 63 ? 63 : maxbits + 1); v = ((i128)1 << kk) + delta[dl]; }
